@@ -783,6 +783,8 @@ class Engine:
             a.assume(c)
             b.assume(z3.Not(c))
             self.refine_none(s.test, a, b)
+            d.refine_branch(self, a)
+            d.refine_branch(self, b)
             a = self.run_block(s.body, a, ctl)
             b = self.run_block(s.orelse, b, ctl)
             return merge_states([a, b])
